@@ -1280,11 +1280,16 @@ def _obj(o):
     if t in ("list", "array"): return "(OList %s)" % _zl(v)
     if t in ("mask", "lmask"): return "(OMask %s)" % E.lst(v, E.b)
     raise EmitError(t)
-def _operand(C, tab, opd, kind):
+def _operand(C, tab, opd, kind, tkind=None):
+    """kind: the kind the keyword labels are named after; tkind: the kind of the axis the call really addresses (generic form
+    with a foreign axis): keywords of another kind are swallowed by **kwargs there, so the addressed kind gets none"""
     st = spec_to_state(C, tab, opd)
-    kw = [st[f] if opd["pass"] == "kw" else
-          (labels_from_table(tab, kind, f, opd["over"][f]) if opd["pass"] == "mat" and f in (opd.get("over") or {}) else None)
-          for f in KINDS[kind]["fields"]]
+    if tkind is not None and tkind != kind:
+        kw = [None for f in KINDS[tkind]["fields"]] if tkind in KINDS else []
+    else:
+        kw = [st[f] if opd["pass"] == "kw" else
+              (labels_from_table(tab, kind, f, opd["over"][f]) if opd["pass"] == "mat" and f in (opd.get("over") or {}) else None)
+              for f in KINDS[kind]["fields"]]
     return "(mkopd %s %s %s %s %s)" % (E.lst(st["shape"], E.nat), _tensor(st["mat"], len(st["shape"])), _axes(C, st),
                                         E.b(opd["pass"] == "mat"), E.lst(kw, _larr))
 def _hop(C, tab, op, prev):
@@ -1295,17 +1300,21 @@ def _hop(C, tab, op, prev):
         return "(HGeno %s)" % p
     kind = op["ax"]
     form = "(Specific %s)" % E.nat(C["lkinds"].index(kind)) if op["form"] == "s" else "(Generic %s)" % E.z(op["gax"])
+    tkind = None
+    if op["form"] != "s":
+        nd = len(C["ax"]); g = op["gax"]
+        if -nd <= g < nd: tkind = C["ax"][g % nd]
     keys = lambda: "None" if op.get("keys") is None else "(Some %s)" % E.lst([prev.get(f) for f in op["keys"]], _larr)
     if k == "lexsort": return "(HLex %s %s)" % (form, keys())
     if k == "select": o = "(Select %s)" % _zl(op["idx"])
     elif k == "reorder": o = "(Reorder %s)" % _zl(op["idx"])
     elif k == "delete": o = "(Delete %s)" % _obj(op["obj"])
     elif k == "remove": o = "(Remove %s)" % _obj(op["obj"])
-    elif k == "insert": o = "(Insert %s %s)" % (_obj(op["obj"]), _operand(C, tab, op["val"], kind))
-    elif k == "incorp": o = "(Incorp %s %s)" % (_obj(op["obj"]), _operand(C, tab, op["val"], kind))
-    elif k == "adjoin": o = "(Adjoin %s)" % _operand(C, tab, op["val"], kind)
-    elif k == "append": o = "(Append %s)" % _operand(C, tab, op["val"], kind)
-    elif k == "concat": o = "(Concat %s)" % E.lst(op["vals"], lambda m: _operand(C, tab, m, kind))
+    elif k == "insert": o = "(Insert %s %s)" % (_obj(op["obj"]), _operand(C, tab, op["val"], kind, tkind))
+    elif k == "incorp": o = "(Incorp %s %s)" % (_obj(op["obj"]), _operand(C, tab, op["val"], kind, tkind))
+    elif k == "adjoin": o = "(Adjoin %s)" % _operand(C, tab, op["val"], kind, tkind)
+    elif k == "append": o = "(Append %s)" % _operand(C, tab, op["val"], kind, tkind)
+    elif k == "concat": o = "(Concat %s)" % E.lst(op["vals"], lambda m: _operand(C, tab, m, kind, tkind))
     elif k == "sort": o = "(Sort %s)" % keys()
     elif k == "group": o = "Group"
     elif k == "ungroup": o = "Ungroup"
